@@ -8,7 +8,7 @@ EXTENDS Spawn, Json
 Modes == {"inherit", "null", "pipe", "raw"}
 IoAll == {<<a, b, c>> : a \in Modes, b \in Modes, c \in Modes}
 Base  == [nargs |-> 1, nenv |-> 1, cwd |-> "none", uid |-> "unset", gid |-> "unset", pg |-> "unset",
-          io |-> <<"inherit", "inherit", "inherit">>, pre |-> << >>, prog |-> "ok"]
+          io |-> <<"inherit", "inherit", "inherit">>, pre |-> << >>, prog |-> "ok", wseq |-> <<"wait">>]
 PreAll   == {<< >>, <<0>>, <<0, 0>>, <<13>>, <<0, 13>>, <<-1>>}
 PreQuick == {<< >>, <<0, 13>>, <<-1>>}
 \* <<uid, gid>> settings: own ids, a foreign user, a foreign group, both (setgid then fails: EPERM)
@@ -19,32 +19,42 @@ IdPairsFull  == IdPairsQuick \cup {<<"own", "unset">>, <<"other", "own">>}
 CfgsIo == {[Base EXCEPT !.io = x] : x \in IoAll}
 \* ... and on a command that uses every other setting
 Rich == [nargs |-> 2, nenv |-> 2, cwd |-> "ok", uid |-> "other", gid |-> "unset", pg |-> "own",
-         io |-> <<"inherit", "inherit", "inherit">>, pre |-> <<0>>, prog |-> "ok"]
+         io |-> <<"inherit", "inherit", "inherit">>, pre |-> <<0>>, prog |-> "ok", wseq |-> <<"wait">>]
 CfgsIoRich == {[Rich EXCEPT !.io = x] : x \in IoAll}
 \* the other dimensions, with one mixed stdio table
 CfgsDimsQuick ==
     {[nargs |-> a, nenv |-> n, cwd |-> w, uid |-> u[1], gid |-> u[2], pg |-> g, io |-> <<"null", "pipe", "raw">>,
-      pre |-> p, prog |-> b] :
+      pre |-> p, prog |-> b, wseq |-> <<"wait">>] :
         a \in {0, 2}, n \in {0, 2}, w \in {"none", "ok", "missing"}, u \in IdPairsQuick,
         g \in {"unset", "own"}, p \in PreQuick, b \in {"ok", "missing"}}
 CfgsDimsFull ==
-    {[nargs |-> a, nenv |-> n, cwd |-> w, uid |-> u[1], gid |-> u[2], pg |-> g, io |-> t, pre |-> p, prog |-> b] :
+    {[nargs |-> a, nenv |-> n, cwd |-> w, uid |-> u[1], gid |-> u[2], pg |-> g, io |-> t, pre |-> p, prog |-> b,
+      wseq |-> <<"wait">>] :
         a \in {0, 2}, n \in 0..2, w \in {"none", "ok", "missing"}, u \in IdPairsFull, g \in {"unset", "own"},
         t \in {<<"null", "pipe", "raw">>, <<"inherit", "inherit", "inherit">>}, p \in PreAll, b \in {"ok", "missing"}}
-CfgsQuick    == CfgsIo \cup CfgsIoRich \cup CfgsDimsQuick
-CfgsThorough == CfgsIo \cup CfgsIoRich \cup CfgsDimsFull
+\* what the caller does with the returned Child: every sequence of 1..3 calls over wait / try_wait /
+\* try_wait-polled-until-Some, on a plain command and on one whose program waits for the end of
+\* its stdin pipe (there a try_wait before the pipe is closed says None for sure)
+WaitOps  == {"wait", "poll", "try"}
+WaitSeqs == UNION {[1..n -> WaitOps] : n \in 1..3}
+WBase    == [Base EXCEPT !.nenv = 0]
+CfgsWait == {[b EXCEPT !.wseq = w] : b \in {WBase, [WBase EXCEPT !.io = <<"pipe", "inherit", "inherit">>]}, w \in WaitSeqs}
+CfgsQuick    == CfgsIo \cup CfgsIoRich \cup CfgsDimsQuick \cup CfgsWait
+CfgsThorough == CfgsIo \cup CfgsIoRich \cup CfgsDimsFull \cup CfgsWait
 CfgsTiny     == {Base, [Base EXCEPT !.io = <<"null", "pipe", "raw">>, !.cwd = "ok", !.uid = "own", !.gid = "own",
                                !.pg = "own", !.pre = <<0>>, !.nargs = 2, !.nenv = 2],
                  [Base EXCEPT !.cwd = "missing"], [Base EXCEPT !.pre = <<0, 13>>], [Base EXCEPT !.pre = <<-1>>],
                  [Base EXCEPT !.prog = "missing"], [Base EXCEPT !.uid = "other", !.gid = "other"],
                  [Base EXCEPT !.uid = "other"], [Base EXCEPT !.gid = "other"],
-                 [Base EXCEPT !.io = <<"pipe", "inherit", "inherit">>]}
+                 [Base EXCEPT !.io = <<"pipe", "inherit", "inherit">>],
+                 [WBase EXCEPT !.wseq = <<"poll", "wait">>], [WBase EXCEPT !.wseq = <<"wait", "try">>],
+                 [WBase EXCEPT !.io = <<"pipe", "inherit", "inherit">>, !.wseq = <<"try", "poll", "try">>]}
 
 Fl(p, s, ks, es) == {[p |-> p, sys |-> s, k |-> k, err |-> e] : k \in ks, e \in es}
 \* one errno per call (quick); -3 = the read is forced to return 3 (short read)
 FaultsQuick ==
     Fl("P", "openat", 1..3, {24}) \cup Fl("P", "pipe2", 1..4, {24}) \cup Fl("P", "fork", {1}, {11})
-    \cup Fl("P", "close", {1}, {4}) \cup Fl("P", "read", {1}, {4, 5, -3}) \cup Fl("P", "wait4", {1}, {10})
+    \cup Fl("P", "close", {1}, {4}) \cup Fl("P", "read", {1}, {4, 5, -3}) \cup Fl("P", "wait4", {1, 2}, {10})
     \cup Fl("C", "close", {1}, {9}) \cup Fl("C", "dup3", 1..3, {9}) \cup Fl("C", "chdir", {1}, {13})
     \cup Fl("C", "setuid", {1}, {1}) \cup Fl("C", "setgid", {1}, {1}) \cup Fl("C", "setpgid", {1}, {1})
     \cup Fl("C", "execve", {1}, {13})
@@ -60,7 +70,8 @@ Applicable(c, f) ==
     \/ f = NoFault
     \/ f.sys = "openat" /\ f.k <= NCount(c, "null")
     \/ f.sys = "pipe2" /\ f.k <= NCount(c, "pipe") + 1
-    \/ f.sys \in {"fork", "close", "read", "wait4", "execve"}
+    \/ f.sys \in {"fork", "close", "read", "execve"}
+    \/ f.sys = "wait4" /\ f.k <= Len(c.wseq)
     \/ f.sys = "dup3" /\ f.k <= 3 - NCount(c, "inherit")
     \/ f.sys = "chdir" /\ c.cwd # "none"
     \/ f.sys = "setuid" /\ c.uid # "unset"
@@ -72,6 +83,6 @@ SpecMC == InitMC /\ [][Next]_vars_all
 
 Plan == [cfg |-> cfg, fault |-> fault, fired |-> fired, start |-> StartFeature,
          hist |-> hist, returns |-> returns, execd |-> execd, image |-> image, cstatus |-> cstatus,
-         waitres |-> waitres, reaped |-> reaped, failed |-> F, viol |-> AbsViolated]
+         waits |-> waits, reaped |-> reaped, failed |-> F, viol |-> AbsViolated]
 Emit == (Terminal /\ (fault = NoFault \/ fired)) => PrintT(<<"PLAN", ToJson(Plan)>>)
 =============================================================================
